@@ -128,12 +128,11 @@ def run_case(case):
             # metamorphic: pressure term is exactly (supplied total) - (supplied static)
             import copy
             for delta in (0.0, 3.25e-4, -7.5e-4):
-                d2 = copy.copy(duck)
                 vb = copy.copy(duck.qha_calculator.volume_base)
                 vb.pressures = duck.static_p_array[None, :] + delta + numpy.zeros((len(t), len(v)))
                 qc = copy.copy(duck.qha_calculator)
                 qc.volume_base = vb
-                d2.qha_calculator = qc
+                d2 = D.clone(duck, qha_calculator=qc)
                 v2 = numpy.array(Off(d2, (ei, ej)).value_isothermal, float)
                 base = zp[None, :] + th
                 if delta == 0.0:
